@@ -20,7 +20,7 @@ def FUNCS():
     return [SMPose._op2, SMUserList.binop, SMUserList.unop, SMPose.__mul__, SMPose.__truediv__, SMPose.__add__, SMPose.__sub__,
             SMPose.__eq__, SMPose.__ne__, SMPose.__pow__, SMPose.log, SMPose.det, SMPose.interp, SO3.inv, SE3.inv, SO2.inv,
             SE2.inv, SO3.R.fget, SE3.t.fget, SO3.rpy, SO3.eul, SO2.theta, SE2.xyt, Quaternion.__mul__, Quaternion.conj,
-            Quaternion.norm, Quaternion.s.fget, Quaternion.v.fget, UnitQuaternion.inv, Twist3.__mul__, Twist3.inv]
+            Quaternion.norm, Quaternion.s.fget, Quaternion.v.fget, UnitQuaternion.inv, Twist3.__mul__, Twist3.__rmul__, Twist3.inv, Twist2.__mul__, Twist2.exp, Twist3.exp]
 
 
 def elem(h, cls, tag):
@@ -48,8 +48,10 @@ def elem(h, cls, tag):
         k = 0.3 + 0.17 * (int(tag[1:]) if tag[1:].isdigit() else 0)
         return h.arr([v[0], v[1], v[2], k, 0, 0]) if tag.startswith('A') else h.arr([v[0], v[1], v[2], 0, 0, k + 0.4])
     if cls is Twist2:
+        # symbolic moment, concrete distinct rotational part: planar motions with translation do not commute
         v = h.vec(tag + 's', 2, -1, 1)
-        return h.arr([v[0], v[1], 0])
+        k = 0.3 + 0.17 * (int(tag[1:]) if tag[1:].isdigit() else 0)
+        return h.arr([v[0], v[1], k if tag.startswith('A') else -(k + 0.4)])
     raise KeyError(cls)
 
 
@@ -81,7 +83,7 @@ BINOPS = {
     SO2: ['*', '/', '+', '-', '==', '!='], SE2: ['*', '/', '+', '-', '==', '!='],
     SO3: ['*', '/', '+', '-', '==', '!='], SE3: ['*', '/', '+', '-', '==', '!='],
     Quaternion: ['*', '+', '-', '==', '!='], UnitQuaternion: ['*', '/', '+', '-', '==', '!='],
-    Twist3: ['*'], Twist2: [],
+    Twist3: ['*'], Twist2: ['*'],
 }
 OPF = {'*': operator.mul, '/': operator.truediv, '+': operator.add, '-': operator.sub, '==': operator.eq, '!=': operator.ne}
 QUICK_LEN = [(1, 1), (1, 3), (3, 1), (3, 3), (2, 2)]
@@ -125,7 +127,7 @@ for _cls, _ops in BINOPS.items():
     for _op in _ops:
         for (_m, _n) in ALL_LEN:
             quick = (_m, _n) in QUICK_LEN or (_m, _n) in ((2, 3), (3, 2))
-            if _cls is Twist3:
+            if _cls in (Twist3, Twist2):
                 # composition of twists goes through exp and log: every product forks several times, so the quick tier
                 # takes the length pairs up to 2 (1-with-M, M-with-1, M-with-M, mismatch is covered by 2-with-3 below)
                 quick = (_m, _n) in ((1, 1), (1, 2), (2, 1), (2, 2), (2, 3))
@@ -303,6 +305,43 @@ def _(h):
     h.same('second', r.data[1], X.interp(s2).A)
 
 
+def _reflected_scalar(h, A, av, k, cls):
+    """scalar * M-valued twist (documented: element-wise product), symbolic and integer scalar"""
+    for nm, kk in (('k*', k), ('2*', 2)):
+        r = kk * A
+        h.is_type(f'{nm}: class', r, cls)
+        n = len(r) if hasattr(r, '__len__') else -1
+        h.true(f'{nm}: {len(av)} values', n == len(av))
+        if n != len(av):
+            continue
+        for i in range(len(av)):
+            h.same(f'{nm}[{i}]', r.data[i], av[i] * kk)
+
+
+@claim('Twist2 sequence')
+def _(h):
+    A, av = seq(h, Twist2, 'A', 3)
+    I = A.inv()
+    h.true('inv: 3 values', len(I) == 3)
+    for i in range(3):
+        h.same(f'inv[{i}]', I.data[i], -av[i])
+    k = h.real('k', 0.5, 3)
+    r = A * k
+    h.true('*k: 3 values', len(r) == 3)
+    for i in range(3):
+        h.same(f'*k[{i}]', r.data[i], av[i] * k)
+    _reflected_scalar(h, A, av, k, Twist2)
+    E = A.exp()
+    h.true('exp: 3 values', len(E) == 3)
+    for i in range(3):
+        h.same(f'exp[{i}]', E.data[i], one(Twist2, av[i]).exp().A)
+    th = h.vec('th', 3, 0.1, 1)
+    E2 = A.exp(list(th))
+    h.true('exp(theta vector): 3 values', len(E2) == 3)
+    for i in range(3):
+        h.same(f'exp(theta)[{i}]', E2.data[i], one(Twist2, av[i]).exp(th[i]).A)
+
+
 @claim('Twist3 sequence')
 def _(h):
     A, av = seq(h, Twist3, 'A', 3)
@@ -315,6 +354,7 @@ def _(h):
     h.true('*k: 3 values', len(r) == 3)
     for i in range(3):
         h.same(f'*k[{i}]', r.data[i], av[i] * k)
+    _reflected_scalar(h, A, av, k, Twist3)
     E = A.exp()
     h.true('exp: 3 values', len(E) == 3)
     for i in range(3):
